@@ -100,4 +100,5 @@ func init() {
 	registerConcJudge("C06", invC06)
 	registerConcJudge("C14", invC14)
 	registerConcJudge("C09", invC14)
+	registerConcJudge("C10", func(core.Obs) string { return "" })
 }
